@@ -236,7 +236,10 @@ CHECKS["C14"] = dict(
                "ACA/chains for links, near-alignment on/off, three aspect-ratio classes, four tree growth directions and three paddings.  "
                "After doHOLA: same node ids and edge end pairs, sizes unchanged (1e-9), no two node boxes overlap (1e-6), every route has "
                ">=2 points, only axis-parallel segments (1e-9 relative: HOLA rotates and translates the finished drawing), starts/ends within the padded box of its end nodes, passes through no other "
-               "node, and every constraint generated from the returned SepMatrix holds for the returned positions (1e-6).",
+               "node, and every constraint generated from the returned SepMatrix holds for the returned positions (1e-6).  "
+               "While F19 (small violations of that last clause on 23% of the graphs) is open, the clause is split by mechanism: a directed separation "
+               "with a positive gap between two nodes of the 2-core that the returned positions put in the opposite order has its own signature "
+               "(sepmatrix-core-order-inverted), is not a listed finding and is reported.",
     level_note="Sampled graphs only; each case costs 0.2-2 s under ASan, so the quick tier is small.  'Within the documented padding' uses nodePaddingScalar x ideal edge length.",
     rule="rapidcheck-generated connected graphs in five families; non-trivial = the graph has a cycle and a degree-1 node (so both the core "
          "and the tree pipeline run); distinct by FNV-1a of the case text",
